@@ -16,7 +16,7 @@ pub fn normalise_name(s: &[u8]) -> String {
     s.iter().filter(|c| **c != 0).map(|c| if c.is_ascii() { *c as char } else { '?' }).collect()
 }
 
-fn sim_fail(property: &str, e: SimError) -> Fail {
+pub(crate) fn sim_fail(property: &str, e: SimError) -> Fail {
     match e {
         SimError::Malformed(m) => Fail::new("C04|malformed-frame-on-wire", m),
         SimError::Watchdog => Fail::new("harness|watchdog", format!("{property}: frame budget exhausted")),
